@@ -3336,8 +3336,11 @@ def are_co_aligned(*exprs):
             # Scalars are valid ancestors that are always broadcastable,
             # so don't walk through them
             continue
-        elif isinstance(e, (_DelayedExpr, Isin)):
+        elif isinstance(e, _DelayedExpr):
             continue
+        elif isinstance(e, Isin):
+            # the values are broadcast, the frame is an ordinary dependency
+            stack.append(e.frame)
         elif isinstance(e, (Blockwise, CumulativeAggregations, Reduction)):
             # TODO: Capture this in inheritance logic
             dependencies = e.dependencies()
